@@ -171,6 +171,25 @@ def realistic_screen_kwargs(
             return np.array([m[str(x)] for x in arr.ravel()], dtype=str).reshape(arr.shape)
 
         sn, pn, tn = deco(sn), deco(pn), deco(tn, keep=(control,))
+        # names that differ only in a surrounding blank are different names
+        if rng.random() < 0.6:
+            for arr in (sn, pn):
+                x = str(rng.choice(np.unique(arr)))
+                if x and not x.endswith(" "):
+                    rows_ = np.flatnonzero(arr == x)
+                    twin = x + " " if rng.random() < 0.5 else " " + x
+                    arr_new = arr.astype("<U%d" % (max(len(a_) for a_ in arr.tolist()) + 2))
+                    arr_new[rows_[rng.random(len(rows_)) < 0.5]] = twin
+                    if arr is sn:
+                        sn = arr_new
+                    else:
+                        pn = arr_new
+            x = str(rng.choice([t_ for t_ in np.unique(tn) if t_ not in (control, "")] or [""]))
+            if x:
+                tn = tn.astype("<U%d" % (max(len(a_) for a_ in tn.ravel().tolist()) + 2))
+                hit = np.argwhere(tn == x)
+                for r_, c_ in hit[rng.random(len(hit)) < 0.5]:
+                    tn[r_, c_] = x + " "
     obs = unique_obs(n, rng)
     kw = dict(treatment_names=tn, treatment_doses=td, sample_names=sn, plate_names=pn, control_treatment_name=control, observations=obs)
     plates = np.unique(pn)
